@@ -463,6 +463,9 @@ def factory(clsname):
         return lambda label: TupleNode(str(label))
     if clsname == "TupleNameNode":  # ordinary Node whose name is a tuple (e.g. grid coordinates)
         return lambda label: Node((int(label), 0))
+    if clsname == "ViewMix":
+        # stock nodes and nodes of a class with its own children view, alternating (so stock nodes sit below such parents)
+        return lambda label: (ViewKidsNode(str(label)) if int(label) % 2 == 0 else Node(str(label)))
     if clsname == "MixNM":
         # a different NodeMixin-based class per node (they may share a tree)
         makers = [factory("Node"), factory("AnyNode"), factory("PlainNM"), factory("SymlinkNode")]
@@ -476,7 +479,25 @@ def factory(clsname):
 # classes with their own __eq__/__hash__/__bool__/__len__ are ordinary users of the mixins: every property that
 # quantifies over "all trees" holds for them too (the harness itself only ever uses identity on nodes)
 SPECIAL_CLASSES = ["EqNode", "FalsyNode", "LenNode", "EqSlotLM", "ListNode", "TupleNode", "TupleNameNode"]
-TREE_CLASSES = ["Node", "AnyNode", "PlainNM", "SlotLM", "DictLM", "SymlinkNode", "MixNM", "MixLM", "ShadowData", "SlotStoreNM"] + SPECIAL_CLASSES
+class ViewKidsNode(Node):
+    """A node class that overrides the public `children` getter with a presentation order of its own (newest label first);
+    setter and deleter are the mixin's. Whatever is defined through a node's children - siblings of ITS children included -
+    follows that public view."""
+
+    @property
+    def children(self):
+        return tuple(sorted(NodeMixin.children.fget(self), key=lambda n: -int(str(getattr(n, "name", 0)) or 0) if str(getattr(n, "name", "")).lstrip("-").isdigit() else 0))
+
+    @children.setter
+    def children(self, value):
+        NodeMixin.children.fset(self, value)
+
+    @children.deleter
+    def children(self):
+        NodeMixin.children.fdel(self)
+
+
+TREE_CLASSES = ["Node", "AnyNode", "PlainNM", "SlotLM", "DictLM", "SymlinkNode", "MixNM", "MixLM", "ShadowData", "SlotStoreNM", "ViewMix"] + SPECIAL_CLASSES
 
 
 # ---------------------------------------------------------------------------
